@@ -142,7 +142,7 @@ def build_array(n, w, type_code, rpc, prefix=5, gap=7, seed=0):
     return arr, t, expected_matrix(rows, type_code, w), ranges, len(content)
 
 
-def check_getitem(budget=4000, seed=0, sizes=((1, 1), (1, 3), (3, 1), (4, 3), (5, 2))):
+def check_getitem(budget=4000, seed=0, sizes=((1, 1), (1, 3), (3, 1), (3, 24), (4, 3), (2, 9), (5, 2))):
     """backend-level: Array[(k0, k1)] vs NumPy for every int / slice key the BASIC adapter can send"""
     n_eval = 0
     for tc in ("IU2", "C*8"):
@@ -151,6 +151,11 @@ def check_getitem(budget=4000, seed=0, sizes=((1, 1), (1, 3), (3, 1), (4, 3), (5
                 arr, t, M, ranges, flen = build_array(n, w, tc, rpc, seed=seed)
                 c = min(rpc, n)
                 k1s = [slice(None), 0, w - 1, slice(0, w, 2), slice(1, None), slice(w, None)]
+                if w >= 8:
+                    # narrow windows of a wide line (at most 1/8 of it), single-column windows
+                    k1s += [slice(2, 4), slice(w // 2, w // 2 + 1), slice(0, w // 8), slice(w - 2, w), slice(5, 6, 1)]
+                elif w > 1:
+                    k1s += [slice(w - 1, w)]
                 for k0 in small_keys(n):
                     for k1 in k1s:
                         if n_eval >= budget:
